@@ -161,4 +161,116 @@ theorem inv_step (d0 : Bytes) (s s' : St) (a : Act) (h : Inv d0 s) (hs : step s 
   · exact inv_cTake d0 s s' h hs
   · exact inv_cSwap d0 s s' h hs
 
+
+/-- ghost bookkeeping: what has been issued plus what is still to do is the producer's history -/
+def Ghost (ws : List Bytes) (s : St) : Prop := s.issued ++ s.todo.flatten = ws.flatten
+
+theorem ghost_init (inmem : Bool) (d0 : Bytes) (ws : List Bytes) : Ghost ws (init inmem d0 ws) := by
+  simp [Ghost, init]
+
+macro "tb_aux" P:ident : tactic => `(tactic|
+  (simp_all [$P:ident] <;> (try (subst_vars; simp_all [$P:ident]))))
+
+theorem ghost_step (ws : List Bytes) (s s' : St) (a : Act) (h : Ghost ws s) (hs : step s a = some s') :
+    Ghost ws s' := by
+  obtain ⟨mailbox, pst, todo, issued, ppc, closed, cpc, inmem⟩ := s
+  cases a <;> simp only [step] at hs
+  · cases ppc <;> cases todo <;> cases pst <;> cases mailbox <;> tb_aux Ghost
+  · cases ppc <;> cases todo <;> cases pst <;> tb_aux Ghost
+  · cases ppc <;> cases todo <;> tb_aux Ghost
+  · cases cpc <;> cases mailbox <;> tb_aux Ghost
+  · cases cpc <;> cases closed <;> tb_aux Ghost
+  · cases cpc with
+    | taken fs => cases mailbox <;> cases fs <;> tb_aux Ghost
+    | _ => tb_aux Ghost
+
+/-- producer program counter is consistent with what it still has to do -/
+def Aux (s : St) : Prop :=
+  (s.ppc = .dropped → s.todo = []) ∧ (s.ppc = .swapped → s.todo ≠ [] ∧ s.pst ≠ .notStarted)
+
+theorem aux_step (s s' : St) (a : Act) (h : Aux s) (hs : step s a = some s') : Aux s' := by
+  obtain ⟨mailbox, pst, todo, issued, ppc, closed, cpc, inmem⟩ := s
+  cases a <;> simp only [step] at hs
+  · cases ppc <;> cases todo <;> cases pst <;> cases mailbox <;> tb_aux Aux
+  · cases ppc <;> cases todo <;> cases pst <;> tb_aux Aux
+  · cases ppc <;> cases todo <;> tb_aux Aux
+  · cases cpc <;> cases mailbox <;> tb_aux Aux
+  · cases cpc <;> cases closed <;> tb_aux Aux
+  · cases cpc with
+    | taken fs => cases mailbox <;> cases fs <;> tb_aux Aux
+    | _ => tb_aux Aux
+
+theorem run_inv (d0 : Bytes) (ws : List Bytes) : ∀ (sched : List Act) (s s' : St),
+    Inv d0 s → Ghost ws s → Aux s → run s sched = some s' → Inv d0 s' ∧ Ghost ws s' ∧ Aux s' := by
+  intro sched
+  induction sched with
+  | nil => intro s s' h g d hr; simp [run] at hr; subst hr; exact ⟨h, g, d⟩
+  | cons a as ih =>
+    intro s s' h g d hr
+    simp only [run] at hr
+    split at hr
+    · rename_i s1 hs1
+      exact ih s1 s' (inv_step d0 s s1 a h hs1) (ghost_step ws s s1 a g hs1) (aux_step s s1 a d hs1) hr
+    · simp at hr
+
+/-- **C12 safety, every interleaving.** Whatever the order of the atomic steps of producer and
+    consumer, no run reaches a panic, and if the consumer's `await_real_file` has returned, the
+    destination it returns holds exactly the initial content followed by every written byte, once
+    and in order. -/
+theorem tb_safety (inmem : Bool) (d0 : Bytes) (ws : List Bytes) (sched : List Act) (s' : St)
+    (hr : run (init inmem d0 ws) sched = some s') :
+    s'.cpc ≠ .panicked ∧ ∀ d, s'.cpc = .done d → d = d0 ++ ws.flatten := by
+  have ⟨hi, hg, hd⟩ := run_inv d0 ws sched _ s' (inv_init inmem d0 ws) (ghost_init inmem d0 ws)
+    (by simp [Aux, init]) hr
+  constructor
+  · intro hp; simp [Inv, hp] at hi
+  · intro d hdone
+    simp only [Inv, hdone] at hi
+    have ht := hd.1 hi.2
+    simp only [Ghost, ht, List.flatten_nil, List.append_nil] at hg
+    rw [hi.1, hg]
+
+/-- **C12 progress.** In every reachable state that is not final some step is enabled: the protocol
+    cannot get stuck; in particular once the producer has dropped, the consumer's wait is over. -/
+theorem tb_progress (d0 : Bytes) (s : St) (h : Inv d0 s) (hd : Aux s) :
+    (∃ d, s.cpc = .done d) ∨ ∃ a s', step s a = some s' := by
+  obtain ⟨mailbox, pst, todo, issued, ppc, closed, cpc, inmem⟩ := s
+  cases cpc with
+  | done d => exact Or.inl ⟨d, rfl⟩
+  | panicked => simp [Inv] at h
+  | holding d =>
+    right
+    refine ⟨.cSwitch, ?_⟩
+    simp only [Inv] at h
+    simp [step, h.2.1]
+  | taken fs =>
+    right
+    refine ⟨.cSwap, ?_⟩
+    simp only [Inv] at h
+    rcases h.2.2 with ⟨d, hm, hf, _⟩ | ⟨hm, hf⟩
+    · cases fs <;> simp_all [step]
+    · simp_all [step]
+  | switched =>
+    right
+    cases ppc with
+    | dropped =>
+      simp only [Inv] at h
+      obtain ⟨fs, hc, _⟩ := h
+      exact ⟨.cTake, by simp [step, hc]⟩
+    | swapped =>
+      have := hd.2 rfl
+      cases todo with
+      | nil => simp at this
+      | cons w ws =>
+        cases pst with
+        | notStarted => simp at this
+        | staged m bs => exact ⟨.pWrite, by simp [step]⟩
+        | real d => exact ⟨.pWrite, by simp [step]⟩
+    | idle =>
+      cases todo with
+      | nil => exact ⟨.pDrop, by simp [step]⟩
+      | cons w ws =>
+        refine ⟨.pUpdate, ?_⟩
+        cases pst <;> cases mailbox <;> simp [step]
+
 end TB
